@@ -167,8 +167,18 @@ func runC11(c *harness.Ctx, idx int) {
 			c.Violation("second-hop", "C11/second-hop-failed", "second-hop decode with the writer's schema failed: err=%v panic=%v reencoded=%s", br.err, br.pv, hexClip(out))
 			return
 		}
-		if d := ref.Diff(w, wv.Elem(), back.Elem(), ref.CmpOpts{RoundTrip: true, LenientDouble: true}); d != "" {
-			c.Violation("second-hop", "C11/second-hop-loss", "value lost through an intermediary with the older schema: %s", d)
+		// "loses nothing": every struct instance of the forwarded message carries the
+		// same fields with the same bytes as the original message, whatever the order
+		// (the older reader may add empty defaults of fields it knows, never drop or alter)
+		if why := wire.Contains(out, msg); why != "" {
+			c.Violation("second-hop", "C11/second-hop-loss", "the message forwarded by the older reader lost or altered something: %s; forwarded=%s original=%s", why, hexClip(out), hexClip(msg))
+		}
+		// and the writer's schema reads it as the reference decoder does
+		exp2 := fresh(w)
+		if _, _, rerr := ref.Decode(w, out, exp2.Elem()); rerr == nil {
+			if d := ref.Diff(w, exp2.Elem(), back.Elem(), ref.CmpOpts{}); d != "" {
+				c.Violation("second-hop", "C11/second-hop-value", "second-hop decode differs from the reference decoder's: %s", d)
+			}
 		}
 	}
 	// (4) holder-less twin decodes the same known fields
@@ -177,6 +187,13 @@ func runC11(c *harness.Ctx, idx int) {
 			g[i] ^= 0xff // restore the input
 		}
 		twin := gen.StripHolders(t)
+		if hasZeroSizeKey(twin) {
+			// a key struct left without any field is zero-size: all such pointer keys
+			// are equal in Go, the twin's map cannot hold the same entries (not compared)
+			c.Tag("skipped:twin-zero-size-key")
+			c.Sample(map[string]string{"W": w.Describe(), "T": t.Describe(), "msg": hexClip(msg), "reencoded": hexClip(out)})
+			return
+		}
 		tv := reflect.New(twin.Go)
 		tr := fDecode(g, tv.Interface())
 		if tr.panicked() || tr.err != nil {
@@ -199,3 +216,26 @@ func runC11(c *harness.Ctx, idx int) {
 
 func isDyn(s *schema.Struct) bool { return s.Go.Name() == "" }
 
+
+func hasZeroSizeKey(s *schema.Struct) bool {
+	found := false
+	walkSchema(s, map[*schema.Struct]bool{}, func(st *schema.Struct) {
+		var wt func(t *schema.Type)
+		wt = func(t *schema.Type) {
+			switch t.K {
+			case schema.Map:
+				if t.Key.K == schema.StructK && t.Key.S.Go.Size() == 0 {
+					found = true
+				}
+				wt(t.Key)
+				wt(t.Elem)
+			case schema.List, schema.Set:
+				wt(t.Elem)
+			}
+		}
+		for _, f := range st.Fields {
+			wt(f.T)
+		}
+	})
+	return found
+}
